@@ -129,4 +129,10 @@ def from_fn_element(w, e, index_expr=("var", "i")):
     e = normalize(w, e)
     if e[0] == "call" and e[4] == "from_fn" and e[2] and e[2][0][0] == "agg" and e[2][0][1] == "closure":
         return apply_closure(w, e[2][0], [index_expr])
+    # `arr.each_ref().map(|x| f(x))` / `arr.map(|x| f(x))` on an array: element i is f(arr[i]) (array::map keeps positions)
+    if e[0] == "call" and e[4] == "map" and len(e[2]) == 2 and e[2][1][0] == "agg" and e[2][1][1] == "closure" and "array" in (e[1] or "") :
+        src = e[2][0]
+        while src[0] == "call" and src[4] in ("each_ref", "each_mut", "as_ref") and src[2]:
+            src = src[2][0]
+        return apply_closure(w, e[2][1], [("index", src, index_expr)])
     return None
